@@ -16,37 +16,43 @@ class MINRESSolver(LinearSolver):
             initial_sol = initial_sol()
 
         rtol = 1e-5
+        max_rounds = 10
 
         mat_norm = sp.sparse.linalg.norm(self.mat)
+        rhs_norm = np.linalg.norm(rhs)
 
         if initial_sol is None:
             initial_sol = np.zeros_like(rhs)
 
-        # Workaround for scipy bug: the stopping test of MINRES estimates the
-        # norm of the matrix from quantities which include the norm of the
-        # initial residual, so for residuals much larger than the matrix it
-        # reports success for vectors far from convergence. Solve for the
-        # correction with a right-hand side of the magnitude of the matrix.
-        res = rhs - self.mat @ initial_sol
-        res_norm = np.linalg.norm(res)
+        sol = initial_sol
 
-        scale = 1.0
-        if res_norm > 0.0 and mat_norm > 0.0 and np.isfinite(mat_norm / res_norm):
-            scale = mat_norm / res_norm
+        for _ in range(max_rounds):
+            res = rhs - self.mat @ sol
+            res_norm = np.linalg.norm(res)
 
-        result = sp.sparse.linalg.minres(self.mat, scale * res, rtol=0.5 * rtol)
+            if res_norm <= rtol * (mat_norm * np.linalg.norm(sol) + rhs_norm):
+                return sol
 
-        (corr, info) = result
+            # Workaround for scipy bug: the stopping test of MINRES estimates
+            # the norm of the matrix from quantities which include the norm of
+            # the initial residual, so for residuals much larger than the
+            # matrix it reports success for vectors far from convergence.
+            # Solve for the correction with a right-hand side of the magnitude
+            # of the matrix, repeatedly if the initial guess was far off.
+            scale = 1.0
+            if mat_norm > 0.0 and np.isfinite(mat_norm / res_norm):
+                scale = mat_norm / res_norm
 
-        if info != 0:
-            raise LinearSolverError("MINRES failed with error code {}".format(info))
+            result = sp.sparse.linalg.minres(self.mat, scale * res, rtol=0.5 * rtol)
 
-        sol = initial_sol + corr / scale
+            (corr, info) = result
 
-        final_res_norm = np.linalg.norm(rhs - self.mat @ sol)
-        bound = rtol * (mat_norm * np.linalg.norm(sol) + np.linalg.norm(rhs))
+            if info != 0:
+                raise LinearSolverError(
+                    "MINRES failed with error code {}".format(info)
+                )
 
-        if not final_res_norm <= bound:
-            raise LinearSolverError("MINRES failed to converge")
+            sol = sol + corr / scale
 
-        return sol
+        raise LinearSolverError("MINRES failed to converge")
+
